@@ -28,10 +28,10 @@ Proof. exact unprefixed_test_matches_no_namespace_only. Qed.
 (** invariance under consistent renaming of the prefixes in the query and its
     bindings, for every expression *)
 Theorem C11_renaming_invariance : forall en en' rho,
-  e_doc en' = e_doc en -> e_root en' = e_root en -> e_vars en' = e_vars en -> e_funs en' = e_funs en ->
+  e_doc en' = e_doc en -> e_root en' = e_root en -> e_vars en' = e_vars en -> e_funs en' = e_funs en -> e_asis en' = e_asis en ->
   (forall p, assoc_str (rho p) (e_ns en') = assoc_str p (e_ns en)) ->
   forall e c, eval en' (rn_expr rho e) c = eval en e c.
-Proof. intros en en' rho H1 H2 H3 H4 H5. exact (proj1 (renaming_invariance en en' rho H1 H2 H3 H4 H5)). Qed.
+Proof. intros en en' rho H1 H2 H3 H4 H5 H6. exact (proj1 (renaming_invariance en en' rho H1 H2 H3 H4 H5 H6)). Qed.
 
 (** a variable evaluates to exactly the bound value *)
 Theorem C11_variable_is_bound_value : forall en q c v,
@@ -76,8 +76,8 @@ Proof. exact unbound_prefix_in_name_test_is_error. Qed.
 Definition ex_doc : anode :=
   build [EvStart (QN [117%N] [97%N]); EvNs [100%N] [117%N]; EvEnd].
 Example C11_example :
-  exec (Env ex_doc [] [([113%N], [117%N])] [] [])
+  exec (Env ex_doc [] [([113%N], [117%N])] [] [] false)
        (EPath true [SAxis Child (NTQName [113%N] [97%N]) []]) = Ok (VNodes [[SCh 0]]) /\
-  exec (Env ex_doc [] [] [] [(QN [] (lit "count"), UArgCount)])
+  exec (Env ex_doc [] [] [] [(QN [] (lit "count"), UArgCount)] false)
        (ECall (None, lit "count") [ELit []; ELit []]) = Ok (VNum (f_of_Z 2)).
 Proof. vm_compute. split; reflexivity. Qed.
